@@ -11,6 +11,8 @@
 
 #include <atomic>
 #include <cstring>
+#include <cstdio>
+#include <cstdlib>
 #include <chrono>
 #include <condition_variable>
 #include <functional>
@@ -102,6 +104,10 @@ public:
 				raw->go = false;
 				raw->st = TS_RUNNABLE;
 			}
+			// scripted exploration must be able to start the threads in any order, also when a thread's first call has
+			// no scheduling point of its own (only there: the random strategies pick the starting thread themselves,
+			// and an extra point would shift the meaning of the schedule bytes of saved replays)
+			if(strategy == 3) point("thread.start");
 			raw->body();
 			finish();
 		});
@@ -144,6 +150,15 @@ public:
 	// preempting inside such a critical section would block the next thread in the kernel while it holds the baton.
 	std::string noPreemptPrefix;
 
+	// Strategy 3, scripted (bounded-exhaustive exploration): the running thread keeps the baton until it blocks or ends,
+	// except at the listed steps, where the baton goes to the listed thread if that thread can run (otherwise the record
+	// has no effect, which the enumerator uses to prune duplicates). Forced switches go to the lowest runnable thread id,
+	// time-outs fire only when nothing else can run, there are no spurious wake-ups.
+	std::vector<std::pair<long, int> > script;
+	size_t scriptPos = 0;
+	int scriptEffective = 0;
+	bool scriptHighFirst = false; // forced switches go to the highest runnable thread id instead of the lowest
+
 	// Mutual exclusion of the critical sections the hooks declare. The harness maps a hook tag to the group of
 	// sections that touch the same unsynchronised container of the single object under test (0 = none). A thread that is
 	// preempted at such a hook stays inside its section until it runs again, so a second thread that arrives at a hook
@@ -159,6 +174,8 @@ public:
 		++step;
 		++points;
 		Th & me = *th[self()];
+		static const bool traceOn = getenv("VERIF_SCHED_TRACE") != nullptr;
+		if(traceOn) fprintf(stderr, "[sched] step %ld thread %d at %s\n", step, me.id, tag);
 		const int group = (csGroupOf != nullptr && tag[0] == 'c' && tag[1] == 's' && tag[2] == '.') ? csGroupOf(tag) : 0;
 		if(group != 0) {
 			++csArrivals;
@@ -336,9 +353,7 @@ private:
 				if(t->timed) timedWaiters.push_back(t->id);
 			}
 		}
-		if(selfId >= 0 && th[selfId]->st != TS_RUNNABLE) {
-			// caller not runnable: it is not in `enabled`
-		}
+		if(strategy == 3) return pickScripted(selfId, enabled, timedWaiters);
 		// timeouts: fired when nothing else can run, or rarely while others run
 		if(! timedWaiters.empty() && (enabled.empty() || choice.below(24) == 0)) {
 			int w = timedWaiters[choice.below((uint32_t)timedWaiters.size())];
@@ -376,6 +391,34 @@ private:
 		default:
 			return enabled[choice.below((uint32_t)enabled.size())];
 		}
+	}
+
+	int pickScripted(int selfId, std::vector<int> & enabled, const std::vector<int> & timedWaiters) {
+		if(enabled.empty() && ! timedWaiters.empty()) {
+			int w = timedWaiters[0];
+			th[w]->timeoutFired = true;
+			++th[w]->timeouts;
+			++timeoutsFired;
+			wake(*th[w]);
+			enabled.push_back(w);
+		}
+		if(enabled.empty()) return -1;
+		std::vector<int> nonSpin;
+		for(int e : enabled) if(! th[e]->spinning) nonSpin.push_back(e);
+		const bool selfSpinning = selfId >= 0 && th[selfId]->spinning;
+		if(selfSpinning && ! nonSpin.empty()) return nonSpin[0];
+		while(scriptPos < script.size() && script[scriptPos].first < step) ++scriptPos;
+		if(selfId >= 0 && th[selfId]->st == TS_RUNNABLE) {
+			if(scriptPos < script.size() && script[scriptPos].first == step) {
+				const int target = script[scriptPos].second;
+				++scriptPos;
+				if(target != selfId) for(int e : enabled) if(e == target) { ++scriptEffective; return target; }
+			}
+			return selfId;
+		}
+		if(scriptHighFirst) { for(size_t i = enabled.size(); i > 0; --i) if(enabled[i - 1] > 0) return enabled[i - 1]; }
+		else { for(int e : enabled) if(e > 0) return e; }
+		return enabled[0];
 	}
 
 	ChoiceSource & choice;
